@@ -530,6 +530,10 @@ def check_c33(A: Analysis, col: Collector):
         if isinstance(v, ast.Name):
             setvar = v.id
     created = [n for n in walk_own(cw.node) if isinstance(n, (ast.Assign, ast.AnnAssign)) and setvar and norm(n.targets[0] if isinstance(n, ast.Assign) else n.target) == setvar]
+    if created and all(not is_within(n, lp) for n in created) and all(n.lineno < lp.lineno for n in created) and norm(created[0].value) == "set()":
+        col.ok("C33.clashes", "one clash-avoidance set (= set()) is created before the loop over output fields", A.loc(created[0]))
+    else:
+        col.fail("C33.clashes", cw.qualname, "clash-set-per-field", "the clash-avoidance set is (re)created inside the per-field loop or not at all: outputs with equal file names overwrite one another in the workflow directory", A.loc(lp))
     calls = [c for c in A.calls(cw) if any(q.endswith("copy_nested_files") for q in A.callee_names(c, cw))]
     A.anchor("copy_nested_files call in copyfile_workflow", calls)
     for c in calls:
